@@ -43,10 +43,16 @@ def run(case):
     diff = traj.filter('Li')
     st_ = sitesys.sites(case)
     rad = case['radius'] if isinstance(case['radius'], dict) else {'': float(case['radius'])}
-    got = gcall(_calculate_atom_states, sites=st_, trajectory=diff, site_radius=dict(rad))
+    rad0 = dict(rad)
+    got = gcall(_calculate_atom_states, sites=st_, trajectory=diff, site_radius=rad)
     compare(got, want, 'outer-state-is-site-within-radius', case)
-    got_in = gcall(_calculate_atom_states, sites=st_, trajectory=diff, site_radius=dict(rad), site_inner_fraction=f)
+    got_in = gcall(_calculate_atom_states, sites=st_, trajectory=diff, site_radius=rad, site_inner_fraction=f)
     compare(got_in, want_in, 'inner-state-is-site-within-inner-radius', case)
+    # the caller's radius specification is an input: the same object is used again (e.g. when scanning the inner fraction)
+    got2 = gcall(_calculate_atom_states, sites=st_, trajectory=diff, site_radius=rad)
+    compare(got2, want, 'outer-state-is-site-within-radius (repeated call with the same radius dict)', case)
+    if rad != rad0:
+        raise Violation('radius-argument-not-modified', f'{rad0} became {rad}')
     g, gi = np.asarray(got), np.asarray(got_in)
     if np.any((gi != -1) & (gi != g) & (want != -2) & (want_in != -2)):
         raise Violation('inner-is-none-or-outer', 'an inner state differs from the outer state')
@@ -54,9 +60,11 @@ def run(case):
     clear = (want != -2).all() and (want_in != -2).all()
     has_change = bool((want[1:] != want[:-1]).any())
     if clear and has_change:
-        tr = gcall(traj.transitions_between_sites, st_, 'Li', site_radius=sitesys.radius_arg(case), site_inner_fraction=f)
-        compare(tr.states, want, 'pipeline-states', case)
-        compare(tr.inner_states, want_in, 'pipeline-inner-states', case)
+        rarg = sitesys.radius_arg(case)
+        for rep in range(2):  # the second call re-uses the caller's radius object
+            tr = gcall(traj.transitions_between_sites, st_, 'Li', site_radius=rarg, site_inner_fraction=f)
+            compare(tr.states, want, f'pipeline-states (call {rep})', case)
+            compare(tr.inner_states, want_in, f'pipeline-inner-states (call {rep})', case)
         labels.append('pipeline')
     if isinstance(case['radius'], dict):
         labs = case['sites']['labels']
@@ -89,6 +97,15 @@ def run_auto(case):
     if sep < 2 * r:
         r = 0.5 * sep - 0.005
     too_close = sep < 2 * (2 * amp) and 2 * r < 0.5
+    # the anchored radius rule, called as from_trajectory calls it
+    from gemdat.transitions import _compute_site_radius
+
+    rr = gcall(_compute_site_radius, trajectory=traj, sites=st_, vibration_amplitude=amp, allow=(ValueError,))
+    if not isinstance(rr, Raised) and np.isfinite(amp):
+        if abs(float(rr) - r) > 1e-9 * max(1.0, r):
+            raise Violation('automatic-radius-rule', f'radius {float(rr)!r} but min(2 x amplitude, separation/2 - 0.005) = {r!r} (smallest minimum-image site separation {sep!r}, amplitude {amp!r}, cell {case["lattice"]["family"]}/{case["lattice"]["orient"]})')
+        if 2 * float(rr) >= sep:
+            raise Violation('automatic-spheres-disjoint', f'2 x {float(rr)!r} >= smallest site separation {sep!r}')
     labels = [case['lattice']['family']]
     if not np.isfinite(amp):
         return {'nontrivial': False, 'labels': ['amplitude-undefined']}
